@@ -3,6 +3,7 @@ package main
 import (
 	"bytes"
 	"fmt"
+	"github.com/keybase/saltpack/encoding/basex"
 	"io"
 	"strconv"
 	"strings"
@@ -282,6 +283,73 @@ func init() {
 		}
 		if w, ok := c.A["want"]; ok && (!base.ok || hx(base.out) != w) {
 			fs = append(fs, Failure{Kind: "oracle", Key: "frag-rejects-genuine", Desc: fmt.Sprintf("genuine input not decoded by stack %s: %s", stack, base.errClass)})
+		}
+		return
+	}}
+
+	// the streaming base-X decoder (filteringReader + decoder), call by call, against the
+	// state-machine model coq/model/BxStream.v
+	evaluators["bxd_sched"] = evaluator{run: func(h *H, c Case) (fs []Failure) {
+		segs := parseSegs(c.A["segs"])
+		final := errOfName(c.A["final"])
+		e := encByName(c.A["enc"])
+		var sizes []int
+		for _, s := range strings.Split(c.A["sizes"], ",") {
+			n, _ := strconv.Atoi(s)
+			sizes = append(sizes, n)
+		}
+		d := basex.NewDecoder(e.enc, &schedReader{segs: cloneSegs(segs), final: final})
+		var got []string
+		var flat []byte
+		var endErr error
+		for _, n := range sizes {
+			buf := make([]byte, n)
+			var k int
+			var err error
+			if pe := guard(func() error { k, err = d.Read(buf); return nil }); pe != nil {
+				return append(fs, Failure{Kind: "oracle", Key: "bx-stream-decoder-panic", Desc: clip(pe.Error(), 200)})
+			}
+			flat = append(flat, buf[:k]...)
+			if err == nil {
+				got = append(got, "D:"+hx(buf[:k]))
+			} else {
+				got = append(got, "E:"+hx(buf[:k])+":"+errClass(err))
+				if endErr == nil {
+					endErr = err
+				}
+			}
+		}
+		m := strings.Join(h.rn.Call("bxd_sched", e.name, c.A["segs"], c.A["final"], c.A["sizes"]), " ")
+		if m != strings.Join(got, " ") {
+			fs = append(fs, Failure{Kind: "correspondence", Key: "bx-stream-decoder", Desc: fmt.Sprintf("model %.200s | impl %.200s", m, strings.Join(got, " "))})
+		}
+		// property oracle: what the bytes alone decode to (one-shot form)
+		var all []byte
+		var srcErr error
+		for _, s := range segs {
+			all = append(all, s.data...)
+			if s.err != nil {
+				srcErr = s.err
+				break
+			}
+		}
+		if srcErr == nil {
+			srcErr = final
+		}
+		one, oneErr := e.enc.DecodeString(string(all))
+		if !bytes.HasPrefix(one, flat) {
+			fs = append(fs, Failure{Kind: "oracle", Key: "bx-stream-delivers-other-bytes", Desc: fmt.Sprintf("the stream delivered %d bytes that are not a prefix of the %d bytes the same characters decode to one-shot", len(flat), len(one))})
+		}
+		if srcErr == io.EOF && oneErr == nil && endErr == io.EOF {
+			if !bytes.Equal(flat, one) {
+				fs = append(fs, Failure{Kind: "oracle", Key: "bx-stream-fragmentation-dependent", Desc: fmt.Sprintf("the stream delivers %d bytes ending in EOF, the same characters decode one-shot to %d bytes", len(flat), len(one))})
+			}
+		}
+		if srcErr == io.EOF && oneErr == nil && endErr != nil && endErr != io.EOF {
+			fs = append(fs, Failure{Kind: "oracle", Key: "bx-stream-rejects-valid", Desc: fmt.Sprintf("the stream ends with %v on characters that decode one-shot", endErr)})
+		}
+		if endErr == io.EOF && (oneErr != nil || srcErr != io.EOF) {
+			fs = append(fs, Failure{Kind: "oracle", Key: "bx-stream-clean-end-on-bad-input", Desc: fmt.Sprintf("clean end although one-shot decoding gives %v and the source ends with %v", oneErr, srcErr)})
 		}
 		return
 	}}
